@@ -269,7 +269,95 @@ pub fn run_oneshot(ch: &mut Chooser, ctx: &mut Ctx) {
     }
 }
 
+/// Joint volume: counts x shard size of 17 .. 72 MiB in ONE call (shard sizes above 128 KiB are otherwise only
+/// combined with tiny counts). Strategies that switch on the total amount of data of a call (strips, tiles,
+/// cache blocking, chunked copies) are only reached here. Valid calls only; encode is compared with the streaming
+/// encoder, then the same stripe is decoded in one shot with as many originals lost as chosen.
+fn oneshot_bulk(ch: &mut Chooser, ctx: &mut Ctx, op_no: usize) {
+    let k = 2 + ch.pick_usize("os.bulk.k", 140);
+    let r = 1 + ch.pick_usize("os.bulk.r", 40);
+    let total = [17usize << 20, 24 << 20, 33 << 20, 40 << 20, 48 << 20, 65 << 20, 72 << 20][ch.pick_usize("os.bulk.total", 7)];
+    let b = ((total / (k + r)) & !1) + 2 * ch.pick_usize("os.bulk.jitter", 33);
+    let seed = ch.seed64("data.seed");
+    let items: Vec<Vec<u8>> = (0..k).map(|i| gen_shard(seed, 0, i, b)).collect();
+    ctx.count("oneshot.bulk_calls");
+    ctx.distinct(&[0x0B0, (total >> 22) as u64, ((k + r).is_power_of_two()) as u64, (b % 64 != 0) as u64]);
+    let owned = ch.chance("os.bulk.owned", 1, 2);
+    let got = ctx.guarded(false, || if owned { reed_solomon_simd::encode(k, r, items.clone()) } else { reed_solomon_simd::encode(k, r, &items) });
+    let got = match got {
+        Ok(v) => v,
+        Err(msg) => {
+            ctx.viol(&["C10", "C09", "C06"], "no-panic", format!("panic/oneshot-encode/{}", panic_sig(&msg)), format!("encode({k}, {r}, {k} shards of {b} bytes) panicked: {msg}"), false);
+            return;
+        }
+    };
+    ev!(ctx, "#{op_no} bulk encode({k}, {r}, {k} shards of {b} bytes = {} MiB in one call) -> {:?}", (k + r) * b >> 20, got.as_ref().map(Vec::len));
+    ctx.hash.feed_u64(got.as_ref().err().map_or(0, err_code));
+    let streaming = ctx.shadow(|| -> Result<Vec<Vec<u8>>, Error> {
+        let mut enc = ReedSolomonEncoder::new(k, r, b)?;
+        for s in &items {
+            enc.add_original_shard(s)?;
+        }
+        let res = enc.encode()?;
+        Ok(res.recovery_iter().map(<[u8]>::to_vec).collect())
+    });
+    let streaming = match streaming {
+        Ok(Ok(v)) => v,
+        other => {
+            ctx.viol(&["C06"], "verdict", "verdict/streaming-encode/bulk".into(), format!("streaming encoder ({k}, {r}, {b}) failed on valid input: {:?}", other.map(|r| r.map(|v| v.len()))), false);
+            return;
+        }
+    };
+    let rec = match got {
+        Ok(g) => {
+            ctx.count("c10.oneshot_encode_compared");
+            if g != streaming {
+                let sh = g.iter().zip(&streaming).position(|(a, b)| a != b);
+                let at = sh.and_then(|i| g[i].iter().zip(&streaming[i]).position(|(a, b)| a != b));
+                ctx.viol(&["C10", "C09"], "oneshot-equals-streaming", "oneshot/encode/bytes".into(), format!("encode({k}, {r}, {k} shards of {b} bytes, {} MiB in one call) returns other bytes than the streaming encoder (first difference: recovery shard {sh:?} byte {at:?}, lengths {:?}..)", (k + r) * b >> 20, g.iter().take(3).map(Vec::len).collect::<Vec<_>>()), false);
+                return;
+            }
+            g
+        }
+        Err(e) => {
+            ctx.viol(&["C10", "C09", "C06", "C08"], "oneshot-equals-streaming", format!("oneshot/encode/{}", err_name(&e)), format!("encode({k}, {r}, {k} shards of {b} bytes) returned Err({e:?}) where the streaming sequence succeeds"), false);
+            return;
+        }
+    };
+    // the same stripe back through one-shot decode
+    let lose = 1 + ch.pick_usize("os.bulk.lose", r.min(k));
+    let first_lost = ch.pick_usize("os.bulk.firstlost", k - lose + 1);
+    let rec_from = ch.pick_usize("os.bulk.recfrom", r - lose + 1);
+    let lost = |i: usize| i >= first_lost && i < first_lost + lose;
+    let dec = ctx.guarded(false, || {
+        reed_solomon_simd::decode(
+            k,
+            r,
+            items.iter().enumerate().filter(|(i, _)| !lost(*i)).map(|(i, s)| (i, &s[..])),
+            rec.iter().enumerate().skip(rec_from).take(lose).map(|(i, s)| (i, &s[..])),
+        )
+    });
+    ctx.count("oneshot.bulk_decodes");
+    match dec {
+        Err(msg) => {
+            ctx.viol(&["C10", "C09", "C06"], "no-panic", format!("panic/oneshot-decode/{}", panic_sig(&msg)), format!("bulk decode({k}, {r}, shards of {b} bytes) panicked: {msg}"), false);
+        }
+        Ok(Err(e)) => { ctx.viol(&["C10", "C09", "C06", "C01"], "oneshot-equals-streaming", format!("oneshot/decode/{}", err_name(&e)), format!("decode({k}, {r}, {} originals and {lose} recovery shards of {b} bytes) returned Err({e:?}) on valid, sufficient input", k - lose), false); }
+        Ok(Ok(map)) => {
+            let mut idx: Vec<usize> = map.keys().copied().collect();
+            idx.sort_unstable();
+            let want: Vec<usize> = (first_lost..first_lost + lose).collect();
+            if idx != want || want.iter().any(|i| map[i] != items[*i]) {
+                ctx.viol(&["C10", "C09", "C01"], "restores-original-bytes", "oneshot/decode/bulk-bytes".into(), format!("decode({k}, {r}, shards of {b} bytes, originals {first_lost}..{} lost, recovery {rec_from}..{}) restored indexes {:?}.. with wrong bytes or the wrong set", first_lost + lose, rec_from + lose, &idx[..idx.len().min(6)]), false);
+            }
+        }
+    }
+}
+
 fn oneshot_encode(ch: &mut Chooser, ctx: &mut Ctx, op_no: usize) {
+    if ch.chance("os.enc.bulk", 1, 3000) {
+        return oneshot_bulk(ch, ctx, op_no);
+    }
     let (k, r) = counts_for(ch);
     let b = if ch.chance("os.badfirst", 1, 10) { gen_bad_bytes(ch).min(67) } else { gen_bytes(ch, 194) };
     let kk = k.min(400);
